@@ -114,13 +114,10 @@ func emitSolverOps(c *Ctx, p *tak.Position, truth string, dfpnOK bool, nPN, nDF 
 	}
 }
 
-// graphRoot draws small positions until one has a game graph within [lo, hi] positions.
-func graphRoot(r *RNG, lo, hi int) (*tak.Position, *graph) {
-	for try := 0; try < 400; try++ {
-		p := smallPosition(r)
-		if over, _ := p.GameOver(); over {
-			continue
-		}
+// graphRoot draws positions of the small-graph families until one has a game graph within [lo, hi] positions.
+func graphRoot(r *RNG, lo, hi int, big bool) (*tak.Position, *graph) {
+	for try := 0; try < 60; try++ {
+		p := graphFamily(r, big)
 		g := exploreGraph(p, hi)
 		if g != nil && len(g.nodes) >= lo {
 			return p, g
@@ -199,7 +196,7 @@ func genC06(c *Ctx) {
 	lap("threats")
 	// (2) exactly solved game graphs: every position in them has a known value for both colours
 	graphs := c.Scale(16, 320)
-	lo, hi := 300, 15000
+	lo, hi := 300, 60000
 	perGraph := 24
 	if c.Thorough() {
 		hi = 400000
@@ -207,7 +204,7 @@ func genC06(c *Ctx) {
 	}
 	caseNo := 0
 	for k := 0; k < graphs; k++ {
-		root, g := graphRoot(r, lo, hi)
+		root, g := graphRoot(r, lo, hi, c.Thorough())
 		if root == nil {
 			c.Count("graph.none-found")
 			continue
@@ -242,10 +239,9 @@ func genC06(c *Ctx) {
 	lap("graphs")
 	// (3) self-contained small graphs (second opinion of the two exact solvers on each other)
 	for k := c.Scale(48, 2000); k > 0; k-- {
-		root, _ := graphRoot(r, 10, 3000)
-		if root == nil {
-			continue
-		}
+		root := famPosition(r, 3, 1, 1, 30, 0, 1)
+		caseNo++
+		c.Emit(fmt.Sprintf("case %d.%d", c.Shard, caseNo))
 		att := []string{"W", "B"}[r.Intn(2)]
 		c.Emit("gtruth " + att + " 3000 " + encPos(root))
 		emitSolverOps(c, root, "x3000", true, 1, 1)
@@ -269,6 +265,8 @@ func genC06(c *Ctx) {
 			continue
 		}
 		c.Count("bounded.size" + strconv.Itoa(size))
+		caseNo++
+		c.Emit(fmt.Sprintf("case %d.%d", c.Shard, caseNo))
 		depth := 2
 		if size == 3 {
 			depth = 3
